@@ -209,16 +209,25 @@ def judge(c, i, m):
             if a != b and not (fin[0] == 'raise' and a == []):
                 what.append(f'validators of parameter {n} were fed with {a} (index, value), demanded {b}')
                 kind = kind or 'wrong-validator-inputs'
-    elif m['domain'] == 1 and ran and d[0] == 'body' and fin[0] == 'body':
-        # gate only: a declared Parameter of the function must receive what the statement demands for its name
-        dem, got = dict((n, v) for n, v in d[1]), dict((n, v) for n, v in fin[1])
-        signames = {sp['n'] for sp in c['sig']['params']}
-        for p in c['params']:
-            n = p['n']
-            if n in signames and n in dem and got.get(n) != dem[n]:
-                what.append(f'parameter {n} reached the body as {got.get(n)}; its Parameter demands {dem[n]} '
-                            f'(the value never went through the chain of its Parameter)')
-                kind = 'gate-misbinding'
+    elif m['domain'] == 1 and d[0] in ('body', 'python-rejects'):
+        # a name reaches a function that has neither such a parameter nor **kwargs: Python has to reject the call, in
+        # every return_as mode; a declared Parameter of the function must in any case receive what the statement demands
+        if ran and d[0] == 'body' and fin[0] == 'body':
+            dem, got = dict((n, v) for n, v in d[1]), dict((n, v) for n, v in fin[1])
+            signames = {sp['n'] for sp in c['sig']['params']}
+            for p in c['params']:
+                n = p['n']
+                if n in signames and n in dem and got.get(n) != dem[n]:
+                    what.append(f'parameter {n} reached the body as {got.get(n)}; its Parameter demands {dem[n]} '
+                                f'(the value never went through the chain of its Parameter)')
+                    kind = 'gate-misbinding'
+        if ran and not what:
+            what.append(f'the body ran with {i.get("binding")} although a name that is no parameter of the function reaches the call '
+                        f'(Python rejects it with TypeError in the other return_as modes)')
+            kind = 'unknown-name-accepted'
+        elif not ran and (fin[0] != 'raise' or fin[1][:2] != [0, 2]):
+            what.append(f'outcome {fin} ({i.get("exc")}), expected Python\'s TypeError for the name the function does not have')
+            kind = 'wrong-exception'
     return corr, not what, '; '.join(what), kind
 
 
@@ -229,14 +238,25 @@ PENDING_FINDINGS = []
 
 
 def finding_matcher(f, case):
-    """narrow syntactic predicate of the former finding K1: ARGS mode, function without **kwargs, no bound self (method
-    call that is looked at), and a keyword or a declared Parameter whose name is no parameter of the function"""
-    if 'calls' in case or f.get('matcher', {}).get('id') != 'args_mode_name_outside_signature':
+    """narrow syntactic predicates on the (single) case"""
+    if 'calls' in case:
         return False
-    signames = {sp['n'] for sp in case['sig']['params']}
+    mid = f.get('matcher', {}).get('id')
+    signames = [sp['n'] for sp in case['sig']['params']]
     outside = [n for n, _ in case['kwargs'] if n not in signames] + [p['n'] for p in case['params'] if p['n'] not in signames]
-    self_bound = case['sig']['method'] and not case['ignore']
-    return case['mode'] == 0 and not case['sig']['varkw'] and not self_bound and bool(outside)
+    if mid == 'args_mode_name_outside_signature':
+        # former finding K1: ARGS mode, function without **kwargs, no bound self, a keyword or a declared Parameter whose name
+        # is no parameter of the function
+        self_bound = case['sig']['method'] and not case['ignore']
+        return case['mode'] == 0 and not case['sig']['varkw'] and not self_bound and bool(outside)
+    if mid == 'without_none_name_outside_signature':
+        # K2: KWARGS_WITHOUT_NONE, function without **kwargs, a name outside the signature reaches the call
+        return case['mode'] == 2 and not case['sig']['varkw'] and bool(outside)
+    if mid == 'self_name_not_implicit_first_positional':
+        # K3 = the complement of self_guard: self by keyword, a Parameter named self, or a parameter self that is not the first
+        return (any(n == 0 for n, _ in case['kwargs']) or any(p['n'] == 0 for p in case['params'])
+                or (0 in signames and signames.index(0) > 0))
+    return False
 
 
 # --------------------------------------------------------------------------- generators
@@ -420,12 +440,37 @@ def gen_random_case(rng, maxchain, maxn=4, tag='valid'):
     return base_case(sig, params, rng.randrange(3), strict, rng.random() < 0.08, rng.random() < 0.3, args, kwargs, tag=tag)
 
 
+def malform_special(rng, c, k):
+    """regions of the open findings K2 (KWARGS_WITHOUT_NONE drops an unknown None keyword) and K3 (the name self)"""
+    plain = not c['sig']['method']
+    if k == 11 or not plain:                       # surplus keyword None, not strict, KWARGS_WITHOUT_NONE
+        c['strict'], c['mode'] = False, 2
+        c['kwargs'].insert(rng.randint(0, len(c['kwargs'])), [8, list(NONE)])
+    elif k == 12:                                  # plain function whose first parameter is named self, passed by keyword
+        names = [sp['n'] for sp in named(c['sig'])]
+        c['sig']['params'].insert(0, {'n': 0, 'kwonly': False, 'default': None})
+        c['kwargs'] = [[0, [1, rng.choice(INT_POOL), 0]]] + [[n, v] for n, v in zip(names, c['args'])] + c['kwargs']
+        c['args'] = []
+    elif k == 13:                                  # the undeclared name self by keyword, not strict, **kwargs
+        c['strict'] = False
+        c['sig']['varkw'] = True
+        c['kwargs'].append([0, [1, rng.choice(INT_POOL), 0]])
+    else:                                          # a Parameter named self
+        c['sig']['varkw'] = True
+        p = gen_param(rng, 0, 2, kinds=('plain',))
+        p['default'], p['required'] = [1, rng.choice(INT_POOL), 0], False
+        c['params'].insert(rng.randint(0, len(c['params'])), p)
+    return c
+
+
 def malform(rng, c):
     """near misses and malformed configurations / calls"""
     c = json.loads(json.dumps(c))
     c['tag'] = 'malformed'
     signames = [sp['n'] for sp in c['sig']['params']]
-    k = rng.randrange(11)
+    k = rng.randrange(15)
+    if k >= 11:
+        return malform_special(rng, c, k)
     if k >= 9 and c['params']:                   # strict, but one argument has no Parameter (positional or keyword)
         c['strict'] = True
         c['params'].pop(rng.randrange(len(c['params'])))
@@ -622,7 +667,7 @@ def run_checks(pid, tier, seed, replay, gen_cases, props, rule, group_check=Fals
         i = ck.run_impl('w_validate', [c])[0]
         m = ck.coq_eval(PRE, [coq_case(c)])[0]
         corr, prop, what, kind = judge(c, i, parse_model(m) if m else None)
-        return not prop
+        return not prop and not (pid == 'C12' and kind == 'unknown-name-accepted')
     ck.replay_known_findings(still_fails)
 
     units = gen_cases(ck.rng, tier, ck.scale()) if replay is None else [replay['case']]
@@ -661,6 +706,8 @@ def run_checks(pid, tier, seed, replay, gen_cases, props, rule, group_check=Fals
         nontrivial = bool(c['params']) and (len(c['args']) + len(c['kwargs']) >= 1 or any(p['ext'] for p in c['params']))
         ck.note_case(key, nontrivial=nontrivial)
         corr, prop, what, kind = judge(c, i, m)
+        if pid == 'C12' and kind == 'unknown-name-accepted':
+            prop, what, kind = True, '', ''      # the return_as modes disagree about a surplus name: a C13 matter (finding C13-K2), no gate violation
         if m:
             bump('domain', m['domain'])
             o = m['final'][0] if m['final'][0] != 'raise' else 'raise:' + '.'.join(map(str, m['final'][1]))
